@@ -5,6 +5,7 @@ use vstd::prelude::*;
 //@@EXTRACT macro_conjunction@@
 verus! {
 //@@SPEC vocab.rs@@
+//@@SPEC std_saturating.rs@@
 //@@SPEC contracts/integer_variable_consumer.rs@@
 //@@SPEC prop_ctx.rs@@
 broadcast use {conv_axioms::axiom_from_empty_domain, seq_lemmas::lemma_seq_holds_push};
